@@ -1011,11 +1011,11 @@ def _simplify_function_sum(call: HplFunctionCall) -> HplExpression:
                 literals.append(v.value)
             else:
                 variables.append(v)
-        n = sum(literals)
-        expr: HplExpression = HplLiteral.number(n)
-        for v in variables:
-            expr = HplBinaryOperator.addition(v, expr)
-        return _simplify(expr)
+        if variables:
+            # elements that are not literals may have the same value as other elements,
+            # and a set contains each value only once
+            return call
+        return HplLiteral.number(sum(set(literals)))
     if isinstance(arg, HplRange):
         if is_number_literal(arg.min_value) and is_number_literal(arg.max_value):
             n = 0
@@ -1039,14 +1039,13 @@ def _simplify_function_prod(call: HplFunctionCall) -> HplExpression:
             else:
                 variables.append(v)
         n = 1
-        for v in literals:
+        for v in set(literals):
             n *= v
-        expr: HplExpression = HplLiteral.number(n)
-        if n == 0:
-            return expr
-        for v in variables:
-            expr = HplBinaryOperator.multiplication(v, expr)
-        return _simplify(expr)
+        if n != 0 and variables:
+            # elements that are not literals may have the same value as other elements,
+            # and a set contains each value only once
+            return call
+        return HplLiteral.number(n)
     if isinstance(arg, HplRange):
         if is_number_literal(arg.min_value) and is_number_literal(arg.max_value):
             n = 1
